@@ -166,15 +166,44 @@ def tuned_cases(draw, tier):
         n = draw(st.integers(2 * msl, 20))
         params = {"anomaly_score": sc, "threshold_scale": None, "level": level, "min_segment_length": msl,
                   "max_interval_length": draw(st.integers(2 * msl, 2 * msl + 10)), "growth_factor": draw(K.growth_strategy)}
+    with_y = draw(st.integers(0, 3)) == 0
     X = draw(D.any_matrix(n, p))
-    return {"detector": det, "params": params, "X": X}
+    return {"detector": det, "params": params, "X": X, "with_y": with_y and n >= 5}
+
+
+def tuned_long_cells(tier):
+    """Tuned thresholds on training series with thousands of scores (600-2600 samples; > 2000 seeded intervals for the two
+    binary segmentations), optionally with an annotation `y` of the true changepoints passed to fit (documented as ignored)."""
+    cells = [("CircularBinarySegmentation", {"min_segment_length": 1, "max_interval_length": 4, "growth_factor": 2.0}, 700),
+             ("CircularBinarySegmentation", {"min_segment_length": 2, "max_interval_length": 8, "growth_factor": 1.5}, 900),
+             ("SeededBinarySegmentation", {"min_segment_length": 1, "max_interval_length": 20, "growth_factor": 1.5}, 1500),
+             ("MovingWindow", {"bandwidth": 20}, 2600), ("MovingWindow", {"bandwidth": 5, "min_detection_interval": 1}, 800)]
+    if tier != "quick":
+        cells += [("CircularBinarySegmentation", {"min_segment_length": 5, "max_interval_length": 20, "growth_factor": 1.5}, 2400),
+                  ("SeededBinarySegmentation", {"min_segment_length": 5, "max_interval_length": 200, "growth_factor": 1.5}, 6000)]
+    for i, (det, params, n) in enumerate(cells):
+        for level in (0.05, 0.2):
+            for with_y in (False, True):
+                yield {"detector": det, "params": dict(params, threshold_scale=None, level=level), "n": n, "seed": 32000 + i, "with_y": with_y}
+
+
+def check_tuned_long(case):
+    X, kind = D.realistic_series(case["seed"], case["n"], 1, "shifts")
+    return check_tuned({"detector": case["detector"], "params": case["params"], "X": X, "with_y": case["with_y"]})
 
 
 def check_tuned(case):
     det_name, params = case["detector"], case["params"]
     X = np.asarray(case["X"], dtype=float)
+    y = None
+    if case.get("with_y"):
+        import pandas as pd
+
+        # an annotation of where the training series changes (sparse format): fit documents `y` as ignored
+        d = np.abs(np.diff(X[:, 0]))
+        y = pd.DataFrame({"ilocs": np.sort(np.argsort(d)[-3:] + 1).astype(int)})
     with sut(f"{det_name}.fit/predict (tuned)"):
-        det = K.build(K.detector_spec(det_name, params)).fit(X)
+        det = K.build(K.detector_spec(det_name, params)).fit(X, y) if y is not None else K.build(K.detector_spec(det_name, params)).fit(X)
         thr = float(det.threshold_)
         if det_name == "MovingWindow":
             train = np.asarray(det.transform_scores(X), dtype=float).reshape(-1)
@@ -195,7 +224,7 @@ def check_tuned(case):
         raise Violation("more than a fraction level of the training scores exceed the tuned threshold", level=level,
                         exceed=exceed, n_scores=N)
     distinct = len(set(np.round(train, 12)))
-    return {"nontrivial": distinct >= 3, "classes": [f"det={det_name}"]}
+    return {"nontrivial": distinct >= 3, "classes": [f"det={det_name}", f"n_scores>={(N // 1000) * 1000}"] + (["y_annotated"] if y is not None else [])}
 
 
 # ------------------------------------------------------------------ (iii) MVCAPA families (grid)
@@ -313,9 +342,15 @@ FACETS = [
           n_quick=600, n_thorough=8000, shards_quick=4, shards_thorough=8),
     Facet(name="tuned_thresholds", check=check_tuned, strategy=tuned_cases,
           rule=("threshold_scale=None for MovingWindow / Seeded / Circular BinSeg on generated data and levels; threshold_ == "
-                "independent linear-interpolation quantile of the observed training scores and #exceedances <= floor(level (N-1))+1; "
+                "independent linear-interpolation quantile of the observed training scores and #exceedances <= floor(level (N-1))+1; in a quarter of the cases "
+                "an annotation y is passed to fit; "
                 "non-trivial = >= 3 distinct training scores"),
           n_quick=480, n_thorough=6000, shards_quick=8, shards_thorough=16),
+    Facet(name="tuned_long_series", kind="enumerate", enumerate=tuned_long_cells, check=check_tuned_long, exhaustive=True, time_limit=600,
+          rule=("tuned thresholds on training series of 700-2600 samples (thorough: 6000) with thousands of training scores (> 2000 seeded intervals "
+                "for the binary segmentations), levels 0.05 / 0.2, with and without an annotation y of changepoints passed to fit (documented as "
+                "ignored); same quantile model; 20 cells (thorough: 28), non-trivial = >= 3 distinct training scores"),
+          shards_quick=10, shards_thorough=14, max_samples=1),
     Facet(name="mvcapa_families", kind="enumerate", enumerate=family_cells, check=check_family_cell, exhaustive=True,
           rule=("grid n in {2,3,5,10,17,100,1000,12345,100000} x p in 1..12 and {16,20,24,26,28,30,31,32,33,40,64} x k in {1,2,3,5} x scale in {0,.5,1,2.5} x families "
                 "dense/sparse/intermediate/combined: shape, non-negativity, monotone cumulative penalty, proportionality, closed "
